@@ -36,6 +36,7 @@ struct MacroArg {
   char *name;
   bool is_va_args;
   Token *tok;
+  Token *expanded; // macro-expanded `tok`, computed at most once
 };
 
 typedef Token *macro_handler_fn(Token *);
@@ -606,11 +607,20 @@ static Token *subst(Token *tok, MacroArg *args) {
     // Handle a macro token. Macro arguments are completely macro-expanded
     // before they are substituted into a macro body.
     if (arg) {
-      Token *t = preprocess2(arg->tok);
-      t->at_bol = tok->at_bol;
-      t->has_space = tok->has_space;
-      for (; t->kind != TK_EOF; t = t->next)
+      // Expand a copy so that `#` and `##` still see the original
+      // spelling, and expand it only once however often it is used.
+      if (!arg->expanded)
+        arg->expanded = preprocess2(append(arg->tok, new_eof(arg->tok)));
+
+      bool first = true;
+      for (Token *t = arg->expanded; t->kind != TK_EOF; t = t->next) {
         cur = cur->next = copy_token(t);
+        if (first) {
+          cur->at_bol = tok->at_bol;
+          cur->has_space = tok->has_space;
+          first = false;
+        }
+      }
       tok = tok->next;
       continue;
     }
